@@ -2,6 +2,7 @@ import Std.Data.HashMap
 import MxV.Model.Msimple
 import MxV.Model.Mslot
 import MxV.Model.Mfull
+import MxV.Model.MfullWitness
 import MxV.Model.Element
 import MxV.Model.Serialize
 import MxV.Model.Parser
@@ -364,7 +365,7 @@ def arenaFor (st : St) (i : Nat) (inst : Inst) (cid : Nat) : Option Mfull.Arena 
     | some j => if j == i then some inst.full else none
     | none =>
       if c.info.isNone then some inst.full else
-      some { inst.full with kids := inst.full.kids.insert cid { ((inst.full.kids[cid]?).getD { name := 0 }) with pxe := none } }
+      some { inst.full with kids := Mfull.kset inst.full.kids cid { (Mfull.kget inst.full.kids cid) with pxe := none } }
 
 def step (st : St) (line : String) : St × String :=
   match (line.trimAscii.toString.splitOn " ").filter (· ≠ "") with
@@ -710,6 +711,30 @@ def step (st : St) (line : String) : St × String :=
       | some sp => (st, if SRE.smatch sp ((unhex w).toList.map (·.val.toNat)) then "yes" else "no")
       | none => (st, "none")
     | none => (st, "bad-op")
+  | ["witness", kind, t, enc] =>
+    -- does the negative-witness predicate of property `kind` hold for this history on the model? (used by the
+    -- generator of Gen/Witnesses.lean to select the histories the kernel is then asked to confirm)
+    match t.toNat?, lookupT (t.toNat?.getD 0) Gen.implTemplates, lookupT (t.toNat?.getD 0) Gen.specTemplates with
+    | some _, some p, some sp =>
+      let ops : List Mfull.Op := (enc.splitOn ",").filterMap fun tok =>
+        match tok.splitOn ":" with
+        | ["a", c, n] => some (.add (c.toNat?.getD 0) (n.toNat?.getD 0) none)
+        | ["a", c, n, f] => some (.add (c.toNat?.getD 0) (n.toNat?.getD 0) f.toInt?)
+        | ["r", c] => some (.rm (c.toNat?.getD 0))
+        | ["p", o, n, nm] => some (.repl (o.toNat?.getD 0) (n.toNat?.getD 0) (nm.toNat?.getD 0))
+        | _ => none
+      let names := ops.filterMap fun op => match op with
+        | .add _ n _ => some n
+        | _ => none
+      let r := match kind with
+        | "C01" => Mfull.wC01 sp p ops
+        | "C02" => Mfull.wC02 sp p names
+        | "C06" => Mfull.wC06 p ops
+        | "C10" => Mfull.wC10 p ops
+        | "C11" => Mfull.wC11 p ops
+        | _ => false
+      (st, if r then "yes" else "no")
+    | _, _, _ => (st, "bad-type")
   | ["accepts", t, w] =>
     match t.toNat? with
     | some t =>
